@@ -105,13 +105,66 @@ struct Lexer<'src> {
     /// and the mode stack.
     #[cfg(debug_assertions)]
     last_state: (u32, Vec<LexerMode>),
+
+    /// Verification-only observations. See `VerifInfo`
+    #[cfg(sas_lexer_verif)]
+    verif: VerifInfo,
 }
+
+/// Verification-only observations of a lexing run. Only compiled
+/// with `--cfg sas_lexer_verif`; never changes what is lexed, except
+/// for aborting the main loop when the iteration budget is exceeded.
+#[cfg(sas_lexer_verif)]
+#[derive(Debug, Clone, Default)]
+pub struct VerifInfo {
+    /// Number of main loop iterations
+    pub iterations: u64,
+    /// The main loop was aborted, because `iterations` exceeded
+    /// `VERIF_ITER_BASE + VERIF_ITER_PER_BYTE * source_len`
+    pub budget_exceeded: bool,
+    /// Number of `checkpoint` calls
+    pub checkpoints: u64,
+    /// Number of `rollback` calls
+    pub rollbacks: u64,
+    /// Number of `rollback` calls without a checkpoint
+    pub rollbacks_without_checkpoint: u64,
+    /// Number of errors that were emitted between a checkpoint and its rollback
+    pub errors_rolled_over: u64,
+    /// Number of line feeds between a checkpoint and its rollback
+    pub lines_rolled_back: u64,
+    /// Max mode stack depth seen after any main loop iteration
+    pub max_mode_stack_depth: usize,
+    /// Snapshot at the moment the cursor reached the end of input: mode stack length
+    pub end_mode_stack_len: usize,
+    /// Snapshot at the end of input: mode stack is exactly `[Default]`
+    pub end_mode_stack_is_default: bool,
+    /// Snapshot at the end of input: debug rendering of the mode stack
+    pub end_mode_stack: Vec<String>,
+    /// Snapshot at the end of input: macro nesting level
+    pub end_macro_nesting_level: u32,
+    /// Snapshot at the end of input: pending statement stack
+    pub end_pending_stat_stack: Vec<bool>,
+    /// Snapshot at the end of input: a checkpoint is still set
+    pub end_checkpoint_live: bool,
+    /// Errors count when the last checkpoint was made
+    ckpt_errors_len: usize,
+    /// Line count when the last checkpoint was made
+    ckpt_line_count: u32,
+}
+
+#[cfg(sas_lexer_verif)]
+pub const VERIF_ITER_BASE: u64 = 256;
+#[cfg(sas_lexer_verif)]
+pub const VERIF_ITER_PER_BYTE: u64 = 16;
 
 /// Result of lexing
 #[derive(Debug)]
 pub struct LexResult {
     pub buffer: TokenizedBuffer,
     pub errors: Vec<ErrorInfo>,
+
+    #[cfg(sas_lexer_verif)]
+    pub verif: VerifInfo,
 
     #[cfg(any(feature = "opti_stats", test))]
     pub max_mode_stack_depth: usize,
@@ -159,6 +212,8 @@ impl Lexer<'_> {
             checkpoint: None,
             macro_nesting_level,
             pending_stat_stack: BitVec::from_elem(1, false),
+            #[cfg(sas_lexer_verif)]
+            verif: VerifInfo::default(),
         })
     }
 
@@ -188,6 +243,13 @@ impl Lexer<'_> {
         // We should always make sure to clear any checkpoints
         debug_assert!(self.checkpoint.is_none());
 
+        #[cfg(sas_lexer_verif)]
+        {
+            self.verif.checkpoints += 1;
+            self.verif.ckpt_errors_len = self.errors.len();
+            self.verif.ckpt_line_count = self.buffer.line_count();
+        }
+
         self.checkpoint = Some(LexerCheckpoint {
             cursor: self.cursor.clone(),
             cur_token_byte_offset: self.cur_token_byte_offset,
@@ -205,6 +267,22 @@ impl Lexer<'_> {
 
     /// Rollback the lexer to the last checkpoint, clearing it in the process.
     fn rollback(&mut self) {
+        #[cfg(sas_lexer_verif)]
+        {
+            self.verif.rollbacks += 1;
+            if self.checkpoint.is_some() {
+                self.verif.errors_rolled_over +=
+                    self.errors.len().saturating_sub(self.verif.ckpt_errors_len) as u64;
+                self.verif.lines_rolled_back += u64::from(
+                    self.buffer
+                        .line_count()
+                        .saturating_sub(self.verif.ckpt_line_count),
+                );
+            } else {
+                self.verif.rollbacks_without_checkpoint += 1;
+            }
+        }
+
         if let Some(checkpoint) = self.checkpoint.take() {
             self.cursor = checkpoint.cursor;
             self.cur_token_byte_offset = checkpoint.cur_token_byte_offset;
@@ -453,6 +531,20 @@ impl Lexer<'_> {
         while let Some(next_char) = self.cursor.peek() {
             self.lex_token(next_char);
 
+            #[cfg(sas_lexer_verif)]
+            {
+                self.verif.iterations += 1;
+                self.verif.max_mode_stack_depth =
+                    self.verif.max_mode_stack_depth.max(self.mode_stack.len());
+
+                if self.verif.iterations
+                    > VERIF_ITER_BASE + VERIF_ITER_PER_BYTE * u64::from(self.source_len)
+                {
+                    self.verif.budget_exceeded = true;
+                    break;
+                }
+            }
+
             #[cfg(any(feature = "opti_stats", test))]
             {
                 max_mode_stack_depth = max_mode_stack_depth.max(self.mode_stack.len());
@@ -475,6 +567,8 @@ impl Lexer<'_> {
                             buffer: self.buffer.into_detached(self.source),
                             errors: self.errors,
                             max_mode_stack_depth,
+                            #[cfg(sas_lexer_verif)]
+                            verif: self.verif,
                         };
                     }
 
@@ -483,11 +577,24 @@ impl Lexer<'_> {
                         return LexResult {
                             buffer: self.buffer.into_detached(self.source),
                             errors: self.errors,
+                            #[cfg(sas_lexer_verif)]
+                            verif: self.verif,
                         };
                     }
                 };
                 self.last_state = new_state;
             }
+        }
+
+        #[cfg(sas_lexer_verif)]
+        {
+            self.verif.end_mode_stack_len = self.mode_stack.len();
+            self.verif.end_mode_stack_is_default =
+                self.mode_stack.len() == 1 && self.mode_stack.first() == Some(&LexerMode::Default);
+            self.verif.end_mode_stack = self.mode_stack.iter().map(|m| format!("{m:?}")).collect();
+            self.verif.end_macro_nesting_level = self.macro_nesting_level;
+            self.verif.end_pending_stat_stack = self.pending_stat_stack.iter().collect();
+            self.verif.end_checkpoint_live = self.checkpoint.is_some();
         }
 
         self.finalize_lexing();
@@ -498,6 +605,8 @@ impl Lexer<'_> {
                 buffer: self.buffer.into_detached(self.source),
                 errors: self.errors,
                 max_mode_stack_depth,
+                #[cfg(sas_lexer_verif)]
+                verif: self.verif,
             }
         }
 
@@ -506,6 +615,8 @@ impl Lexer<'_> {
             LexResult {
                 buffer: self.buffer.into_detached(self.source),
                 errors: self.errors,
+                #[cfg(sas_lexer_verif)]
+                verif: self.verif,
             }
         }
     }
